@@ -114,15 +114,31 @@ func (w *worker) kill() {
 	w.cmd.Wait()
 }
 
-type runner struct{ w *worker }
+type runner struct {
+	w         *worker
+	confirmed map[string]int // per kind: timeouts that survived the 20 s retry
+}
 
 // call runs one decoder in the worker under a 2 s watchdog.  A first timeout is re-tried once in a fresh
 // worker with a 20 s limit, so that a scheduling stall of a loaded machine is not reported as a decoder that
-// loops without consuming input (a real spin still exceeds the second limit).
+// loops without consuming input (a real spin still exceeds the second limit).  After two such confirmed hangs of
+// one kind, later 2 s timeouts of that kind are final.
 func (r *runner) call(kind string, data []byte) (res string, alloc uint64) {
 	res, alloc = r.callLimit(kind, data, 2*time.Second)
 	if res == "timeout" {
+		if r.confirmed[kind] >= 2 {
+			// this decoder has already spun twice for more than 20 s in this run (the run reports a violation
+			// anyway): further 2 s timeouts of the same kind are not re-tried, so that a hanging decoder does
+			// not cost 22 s per case
+			return res, alloc
+		}
 		res, alloc = r.callLimit(kind, data, 20*time.Second)
+		if res == "timeout" {
+			if r.confirmed == nil {
+				r.confirmed = map[string]int{}
+			}
+			r.confirmed[kind]++
+		}
 	}
 	return res, alloc
 }
